@@ -270,7 +270,8 @@ fn check_keys<K: Eq + Hash + Clone + std::fmt::Debug>(rep: &mut Report, cx: &Cx,
     if compatible != feasible_by_projection(c, s) { eprintln!("HARNESS-ERROR the two merge-feasibility tests disagree on {c:?} / {s:?}"); std::process::exit(3); }
     let shared = c.iter().filter(|k| ss.contains(k)).count();
     let last_shared = s.iter().rposition(|k| cs.contains(k));
-    let st = OrderStat { compatible, client_only: c.len() - shared, server_only: s.len() - shared, shared,
+    // saturating: a side that lists a key twice (only possible when it is itself the wrong output of an earlier merge) must not take the harness down
+    let st = OrderStat { compatible, client_only: c.len().saturating_sub(shared), server_only: s.len().saturating_sub(shared), shared,
         server_only_before_shared: last_shared.is_some_and(|l| s[..l].iter().any(|k| !cs.contains(k))) };
     if ok {
         let (rc, rs) = (restrict(o, c), restrict(o, s));
